@@ -255,6 +255,8 @@ func (cc *ClientConn) newStream(
 	err = rw.Write(ctx, &rpc)
 	if err != nil {
 		log.Error().Err(err).Msg("NewStream: failed to open")
+		// No stream will exist to run the teardown later on.
+		teardown()
 		return nil, err
 	}
 
